@@ -1957,3 +1957,14 @@ package sio
 //@   callsite (*BroadcastOperator).FetchSockets skip
 //@     requires aimed == 1 [C04.server.fetchsockets.through.the.aimed.operator]
 //@   loop 0 invariant len(rooms) == len(room) && forall k int :: 0 <= k && k <= rangeindex ==> rooms[k] == room[k]
+
+// C10 (client): when the use of a connection ends - a frame that cannot be decoded, a newer connection taking its
+// place, a close - the function the manager runs for that (registered by connect) deactivates the connection's
+// callbacks and CLOSES that very Engine.IO connection: it is never left open behind the manager's back.
+//@ func (*Manager).connect$5
+//@   opt safety off
+//@   ghost closes int = 0
+//@   callsite ClientSocket.Close go
+//@     requires recv == _eio && closes == 0 [C10.cli.connection.closed.when.its.use.ends]
+//@     update closes = closes + 1
+//@   ensures closes == 1 && !active [C10.cli.ended.connection.deactivated.and.closed]
